@@ -155,18 +155,25 @@ PROPS = {
         level_text="Lean 4 theorems: every product kernel (reference and AVX2) exact modulo each prime for all ell <= 10000 and all in-layout operands under kernel-decided bound predicates on constants read back from the live precomputations; conversions congruent; centred CRT lift unique; int64 round trip; bit-exact correspondence on extremal operands",
         design_ref="DESIGN.md §5 C10",
         module="SpqProofs.Properties.C10",
+        extra_modules=["SpqProofs.Properties.SrcQ120", "SpqProofs.Properties.SrcQ120X2"],
         variants={"plain": None},
-        gen=["q120"],   # tools/gen_q120.py: lean/Gen/Q120Consts.lean + lean/Gen/ProdPrecomp.lean
-        streams=dict(quick=[("q1_prod", "plain"), ("q1_conv", "plain"), ("cv_q120old", "plain"), ("huge_span", "plain")],
-                     thorough=[("q1_prod", "plain"), ("q1_conv", "plain"), ("cv_q120old", "plain"), ("huge_span", "plain")]),
+        gen=["q120", "csrc"],   # tools/gen_q120.py: lean/Gen/Q120Consts.lean + lean/Gen/ProdPrecomp.lean
+        streams=dict(quick=[("cs_q120", "plain"), ("q1_prod", "plain"), ("q1_conv", "plain"), ("cv_q120old", "plain"), ("huge_span", "plain")],
+                     thorough=[("cs_q120", "plain"), ("q1_prod", "plain"), ("q1_conv", "plain"), ("cv_q120old", "plain"), ("huge_span", "plain")]),
         proved="for the constants extracted from the code this run (primes, CRT constants, MAX_ELL, live product precomputations): "
                "every q120 product kernel (a*a, b*b, b*c, x2 one/two columns; reference and AVX2) returns lanes congruent to the exact dot "
                "product modulo each prime for all ell <= MAX_ELL and all operands of the layout (b: any 64-bit lane), with no 64-bit wrap and no "
                "mul_epu32 truncation, ref == avx2 bit for bit; int64->b, int64->c, b->c, b+b, c+c are congruent/exact for all inputs; b->int128 is "
                "the unique centered representative mod Q (no __int128 overflow); int64->b->int128 is the identity on all int64; block "
-               "extract/save are mutually inverse for every block index",
-        not_proved="the model is lane-wise (one fold per output lane, justified by lane independence of the C loops) and is tied to the C code "
-                   "by the bit-exact streams q1_prod/q1_conv; the floating-point search choosing the split point h is not modelled (its result "
+               "extract/save are mutually inverse for every block index. SOURCE TIE (Properties/SrcQ120.lean, SrcQ120X2.lean): the C source of "
+               "the REFERENCE kernels q120_vec_mat1col_product_baa/bbb/bbc_ref, q120x2_vec_mat1col/mat2cols_product_bbc_ref, the three block "
+               "extract/save functions and q120_b_from_znx64/c_from_b/add_bbb/add_ccc_simple, translated on every run by tools/c2lean.py "
+               "(local arrays, uint32 views of 64-bit cells, inlined static helpers, the precomputation struct as a buffer of cells), is proved "
+               "equal to the model functions of lean/Spq/Q120.lean these theorems are about, for every ell / nn (0 included, ell < 2^59), all operand "
+               "words and EVERY precomputation content with h < 64, exact-size buffers, with no out-of-bounds access; the stream cs_q120 "
+               "runs the generated terms against the compiled functions on the LIVE precomputation objects",
+        not_proved="the model is lane-wise (one fold per output lane): for the REFERENCE kernels this is now a theorem about the translated C source, "
+                   "for the AVX2 kernels it is tied by the bit-exact streams q1_prod/q1_conv; q120_b_to_znx128_simple (__int128) and q120_c_from_znx64_simple (signed %) are not translated; the floating-point search choosing the split point h is not modelled (its result "
                    "is extracted from the live precomp object and checked by the decidable predicates); _avx block extract/save variants and "
                    "q120x2_extract_1blk_from_q120c_ref (an alias) are not streamed",
         assumptions=COMMON_ASSUME + ["little-endian uint32 view of uint64 lanes (x86-64)"],
@@ -175,12 +182,12 @@ PROPS = {
         title="Memory contract: declared extents and *_tmp_bytes scratch are never exceeded",
         module="SpqProofs.Properties.C11",
         also_tags=["C18"],   # frame verdicts of mh_arena (a write outside result and scratch) are memory-contract violations too
-        extra_modules=["SpqProofs.Properties.ModHeap"],
-        gen=["tmpbytes"],
+        extra_modules=["SpqProofs.Properties.ModHeap", "SpqProofs.Properties.SrcMod", "SpqProofs.Properties.SrcModVmp"],
+        gen=["tmpbytes", "csrc"],   # csrc: tools/c2lean.py translates vec_znx_dft.c / scalar_vector_product.c / znx_small.c / vector_matrix_product.c (addressing only)
         variants={"plain": None, "asan": None},
-        streams=dict(quick=[("mem_pairs", "asan"), ("vz_box", "asan"), ("vz_norm", "asan"), ("kz_probe", "asan"), ("kz_norm", "asan"), ("ca_prog", "asan"), ("md_prod", "asan"), ("md_vmp", "asan"), ("md_ntt", "asan"), ("cv_misc", "asan"), ("cv_rnx", "asan"), ("cv_cplxvec", "asan"), ("ca_small", "asan"), ("big_align", "asan"), ("cv_misc", "plain"), ("mh_arena", "plain"), ("mh_arena", "asan"), ("small_stack", "plain"), ("huge_span", "plain"), ("ca_bigdim", "asan")],
-                     thorough=[("mem_pairs", "asan"), ("vz_box", "asan"), ("vz_norm", "asan"), ("kz_probe", "asan"), ("kz_norm", "asan"), ("ca_prog", "asan"), ("md_prod", "asan"), ("md_vmp", "asan"), ("md_ntt", "asan"), ("cv_misc", "asan"), ("cv_rnx", "asan"), ("cv_cplxvec", "asan"), ("ca_small", "asan"), ("big_align", "asan"), ("cv_misc", "plain"), ("mh_arena", "plain"), ("mh_arena", "asan"), ("small_stack", "plain"), ("huge_span", "plain"), ("ca_bigdim", "asan")]),
-        proved="index logic of every limb-vector operation: declared extents inside the heap imply no out-of-bounds access of the model (all shapes incl. zero limb counts), frame theorems (C18) bound the writes, scratch of the normalisation = one carry limb = *_tmp_bytes; Gen obligation: size formulas = live *_tmp_bytes / bytes_of_* values over a shape box (nn in {2,4,8,16,64,4096,65536}, sizes in {0,1,2,5}) MODULE LAYER (Properties/ModHeap.lean, heap-level model Spq.ModuleHeap tied bit-exactly by stream mh_arena): for vec_znx_dft, vec_znx_idft (in place or not), idft_tmp_a, svp_prepare, svp_apply_dft, znx_small_single_product, vmp_prepare_contiguous, vmp_apply_dft_to_dft and vmp_apply_dft, for all nn, limb counts incl. 0, strides and matrix shapes: when the caller provides the regions of the C contract and exactly *_tmp_bytes(shape) bytes of scratch (formulas of Spq.TmpBytes = live values, Gen obligation), no access leaves the declared regions (ok flag kept), incl. the tmp_space split of vmp_apply_dft and the accumulator/extraction buffers of apply_dft_to_dft.",
+        streams=dict(quick=[("mem_pairs", "asan"), ("vz_box", "asan"), ("vz_norm", "asan"), ("kz_probe", "asan"), ("kz_norm", "asan"), ("ca_prog", "asan"), ("md_prod", "asan"), ("md_vmp", "asan"), ("md_ntt", "asan"), ("cv_misc", "asan"), ("cv_rnx", "asan"), ("cv_cplxvec", "asan"), ("ca_small", "asan"), ("big_align", "asan"), ("cv_misc", "plain"), ("mh_arena", "plain"), ("cs_mod", "plain"), ("mh_arena", "asan"), ("small_stack", "plain"), ("huge_span", "plain"), ("ca_bigdim", "asan")],
+                     thorough=[("mem_pairs", "asan"), ("vz_box", "asan"), ("vz_norm", "asan"), ("kz_probe", "asan"), ("kz_norm", "asan"), ("ca_prog", "asan"), ("md_prod", "asan"), ("md_vmp", "asan"), ("md_ntt", "asan"), ("cv_misc", "asan"), ("cv_rnx", "asan"), ("cv_cplxvec", "asan"), ("ca_small", "asan"), ("big_align", "asan"), ("cv_misc", "plain"), ("mh_arena", "plain"), ("cs_mod", "plain"), ("mh_arena", "asan"), ("small_stack", "plain"), ("huge_span", "plain"), ("ca_bigdim", "asan")]),
+        proved="index logic of every limb-vector operation: declared extents inside the heap imply no out-of-bounds access of the model (all shapes incl. zero limb counts), frame theorems (C18) bound the writes, scratch of the normalisation = one carry limb = *_tmp_bytes; Gen obligation: size formulas = live *_tmp_bytes / bytes_of_* values over a shape box (nn in {2,4,8,16,64,4096,65536}, sizes in {0,1,2,5}) MODULE LAYER (Properties/ModHeap.lean, heap-level model Spq.ModuleHeap tied bit-exactly by stream mh_arena): for vec_znx_dft, vec_znx_idft (in place or not), idft_tmp_a, svp_prepare, svp_apply_dft, znx_small_single_product, vmp_prepare_contiguous, vmp_apply_dft_to_dft and vmp_apply_dft, for all nn, limb counts incl. 0, strides and matrix shapes: when the caller provides the regions of the C contract and exactly *_tmp_bytes(shape) bytes of scratch (formulas of Spq.TmpBytes = live values, Gen obligation), no access leaves the declared regions (ok flag kept), incl. the tmp_space split of vmp_apply_dft and the accumulator/extraction buffers of apply_dft_to_dft. SOURCE TIE OF THE MODULE LAYER (Properties/SrcMod.lean, SrcModVmp.lean): the C source of fft64_vec_znx_dft / idft / idft_tmp_a, fft64_svp_prepare_ref / svp_apply_dft_ref, fft64_znx_small_single_product, fft64_vmp_prepare_contiguous_ref, fft64_vmp_apply_dft_to_dft_ref and fft64_vmp_apply_dft_ref (addressing, loops, scratch split; the arithmetic kernels reached through the module's function pointers are opaque calls whose semantics is the kernel record of Spq.ModuleHeap), translated on every run, is proved equal to the Spq.ModuleHeap entry points whenever the model run is fault-free - so the ModHeap theorems (no access outside the declared regions and *_tmp_bytes, frame, in place = out of place) are about what the source says; stream cs_mod runs the generated terms against the real entry points.",
         not_proved="runtime residue observed by ASan/UBSan-bounds/LSan on exactly-sized heap buffers, not proved: accesses inside float kernels and asm leaves, alloc/free pairing of new_*/delete_*, alignment, allocator overflow abort; inside the float kernels (conversion, fft, products) accesses are over-approximated to the whole limb/block they are given",
         level_text="Lean 4 theorems for the index logic (bounds flag, frame, scratch size) + kernel-decided size-formula obligation on live values; the memory-safety residue is tied by sanitizer builds on exact-size buffers (partial)",
         design_ref="DESIGN.md §5 C11",
@@ -240,10 +247,10 @@ PROPS = {
     "C16": dict(
         title="Pipelines of API calls compute the corresponding expression in Z[X]/(X^N+1)",
         module="SpqProofs.Properties.C16",
-        extra_modules=["SpqProofs.Properties.Closed", "SpqProofs.Properties.C16Err", "SpqProofs.Properties.Bridge", "SpqProofs.Properties.ErrWitness", "SpqProofs.Properties.BridgeFft", "SpqProofs.Properties.C16Err2"],
+        extra_modules=["SpqProofs.Properties.Closed", "SpqProofs.Properties.C16Err", "SpqProofs.Properties.Bridge", "SpqProofs.Properties.ErrWitness", "SpqProofs.Properties.BridgeFft", "SpqProofs.Properties.C16Err2", "SpqProofs.Properties.ErrWitness2"],
         streams=dict(quick=[("md_prog", "plain"), ("vz_box", "plain"), ("ff_tables", "plain")],
                      thorough=[("md_prog", "plain"), ("vz_box", "plain"), ("ff_tables", "plain")]),
-        proved="coefficient-space fragment, complete: for every layout (N = 2^t, strides >= N, pairwise disjoint variables inside one int64 heap), every straight-line program of add/sub/negate/copy/rotate/automorphism/normalize calls (any length, destination equal to a source or not, any limb counts incl. 0) and every input, if the exact interpreter stays in budget (every stored coefficient fits int64; |normalize input| <= 2^62, k in [1,62]; odd automorphism index) then the heap after running the model of vec_znx.c holds, limb by limb, the exact expression in Z[X]/(X^N+1) (pointwise +-, X^p*a, a(X^p) = sum a_i X^(ip), balanced base-2^k digits), all other cells (padding, other variables) are unchanged and no access was out of bounds (coeff_prog_refines, coeff_prog_output; per-call *_sim derived from the C08/C09/C05 specs). Mixed programs (dft, svp_prepare/apply, vmp_prepare/apply, idft, small product on a second store of opaque objects): prog_refines_partial proves the refinement for every module and every program relative to the record DftOpsSound of per-function exactness facts (dft_exact, svp_exact, vmp_exact, dft_idft_exact, small_product_exact = the C01/C02 theorems) - heap reads with strides, stores, frames, interplay with coefficient-space calls and validity of opaque objects as inputs of later calls are proved; DftOpsSound is shown inhabited (identity-transform module) BINARY64 (Properties/C16Err.lean): the program interpreter run with the binary64 module instance Cfg.parts produces exactly the integer limbs of the exact interpreter for every well-typed program (all ten ops incl. vmp_apply_dft_to_dft) whose DFT-space steps satisfy their per-operation budget (round trip dft->idft: 17 log2(N) u |a|_2 < 1/2; svp / small product: C01Err budget; vmp: C02Err budget) and whose vmp_apply_dft_to_dft reads a raw dft output (SingleProductDepth, decidable): prog_refines_f64_partial, prog_output_f64_partial, dftOpsSound_f64 (a definition: the DftOpsSound record instantiated for the library module), f64_agrees_with_exact_network_partial. The stream md_prog now also sends every program to the Lean program model (driver family pg) and compares the final heap and every DFT variable bit for bit. NON-VACUITY (Properties/ErrWitness.lean): at N = 8 (m = 4, K = R, zeta = exp(i pi/8)) with the library's ACTUAL stored twiddle patterns and the configuration it installs on this host, every hypothesis of reim_fft_err / reim_ifft_err, small_product_err / _exact, vmp_exact (2x1) and roundtrip_exact (CfgOk, 3.5u accuracy of both tables proved from rational enclosures of cos/sin(pi/8), flags by evaluation, budget) is discharged on concrete integer inputs and the conclusions are evaluated (witness_*_k2); not covered by a witness: the cplx-layout error theorems, svp_err / vmp_err and the C16Err2 budgets; the table patterns and the configuration in the witness are literals read from the library once, not regenerated per run. Properties/C16Err2.lean removes the SingleProductDepth restriction: with a metric invariant (per-limb 2-norm distance delta of a DFT variable from the exact transform, propagated through svp / vmp / vmp_apply_dft_to_dft by explicit formulas) prog_refines_f64_metric_partial / prog_output_f64_metric_partial hold for EVERY OpD program, product chains of any depth (example at N = 2: svp -> vmp_apply_dft_to_dft -> idft, zero rounding error at that size).",
+        proved="coefficient-space fragment, complete: for every layout (N = 2^t, strides >= N, pairwise disjoint variables inside one int64 heap), every straight-line program of add/sub/negate/copy/rotate/automorphism/normalize calls (any length, destination equal to a source or not, any limb counts incl. 0) and every input, if the exact interpreter stays in budget (every stored coefficient fits int64; |normalize input| <= 2^62, k in [1,62]; odd automorphism index) then the heap after running the model of vec_znx.c holds, limb by limb, the exact expression in Z[X]/(X^N+1) (pointwise +-, X^p*a, a(X^p) = sum a_i X^(ip), balanced base-2^k digits), all other cells (padding, other variables) are unchanged and no access was out of bounds (coeff_prog_refines, coeff_prog_output; per-call *_sim derived from the C08/C09/C05 specs). Mixed programs (dft, svp_prepare/apply, vmp_prepare/apply, idft, small product on a second store of opaque objects): prog_refines_partial proves the refinement for every module and every program relative to the record DftOpsSound of per-function exactness facts (dft_exact, svp_exact, vmp_exact, dft_idft_exact, small_product_exact = the C01/C02 theorems) - heap reads with strides, stores, frames, interplay with coefficient-space calls and validity of opaque objects as inputs of later calls are proved; DftOpsSound is shown inhabited (identity-transform module) BINARY64 (Properties/C16Err.lean): the program interpreter run with the binary64 module instance Cfg.parts produces exactly the integer limbs of the exact interpreter for every well-typed program (all ten ops incl. vmp_apply_dft_to_dft) whose DFT-space steps satisfy their per-operation budget (round trip dft->idft: 17 log2(N) u |a|_2 < 1/2; svp / small product: C01Err budget; vmp: C02Err budget) and whose vmp_apply_dft_to_dft reads a raw dft output (SingleProductDepth, decidable): prog_refines_f64_partial, prog_output_f64_partial, dftOpsSound_f64 (a definition: the DftOpsSound record instantiated for the library module), f64_agrees_with_exact_network_partial. The stream md_prog now also sends every program to the Lean program model (driver family pg) and compares the final heap and every DFT variable bit for bit. NON-VACUITY (Properties/ErrWitness.lean): at N = 8 (m = 4, K = R, zeta = exp(i pi/8)) with the library's ACTUAL stored twiddle patterns and the configuration it installs on this host, every hypothesis of reim_fft_err / reim_ifft_err, small_product_err / _exact, vmp_exact (2x1) and roundtrip_exact (CfgOk, 3.5u accuracy of both tables proved from rational enclosures of cos/sin(pi/8), flags by evaluation, budget) is discharged on concrete integer inputs and the conclusions are evaluated (witness_*_k2); not covered by a witness: the cplx-layout error theorems, svp_err / vmp_err and the C16Err2 budgets; the table patterns and the configuration in the witness are literals read from the library once, not regenerated per run. Properties/C16Err2.lean removes the SingleProductDepth restriction: with a metric invariant (per-limb 2-norm distance delta of a DFT variable from the exact transform, propagated through svp / vmp / vmp_apply_dft_to_dft by explicit formulas) prog_refines_f64_metric_partial / prog_output_f64_metric_partial hold for EVERY OpD program, product chains of any depth (example at N = 2; Properties/ErrWitness2.lean: a product of a product at N = 8 over R with the library's real tables, every C16Err2 budget discharged, exact result (exA8*exB8)*exC8).",
         not_proved="DftOpsSound is instantiated for the real FFT network in exact arithmetic (Closed: dftOpsSound_network, prog_refines_closed, incl. products of products) and for the library binary64 module (C16Err: dftOpsSound_f64). What remains for binary64: the per-operation budgets carry the proved constants (12 / 17 instead of the property 8 / 16), twiddle accuracy and the underflow side condition are hypotheses, the per-operation flags of a product fed into a product (C16Err2) are stated on the concrete binary64 operand. NTT120 big-coefficient programs (int128 limbs) are not in the program model (module-level theorems in C03Mod; md_prog stream). Properties/Bridge.lean (an obligation of this check) ties the rotation/automorphism formulas and the NTT-side product formula Q120Ntt.nmul to Mathlib AdjoinRoot (X^N+1); Properties/BridgeFft.lean does the same for the FFT-side formulas Spq.nmul / isum / Prog.polyMul / vmpVal used by C01/C02/Closed/C16",
         level_text="Lean 4 refinement theorem (simulation by induction on the program) for the whole coefficient-space fragment over the heap model of vec_znx.c; DFT-space extension proved relative to an explicit record of per-function exactness hypotheses; random well-typed programs over the real library (both dispatch masks, aliasing, shapes) checked against an independent 128-bit exact interpreter",
         design_ref="DESIGN.md §5 C16",
